@@ -277,6 +277,24 @@ def _sanitize_ignore_file(wt):
         os.chmod(ap, mode)
 
 
+def _mostly_ascii_symlink_paths(rng, wt, log):
+    """upload_symlink() hands raw (un-escaped) paths to the transport, so a symlink at a non-ASCII path makes every upload of the
+    revision fail (finding upload_symlink:path-not-url-escaped).  Keep that shape rare (about 1 history in 10) so that it does not
+    starve everything else: move such links to a free ASCII name before the commit."""
+    st = observe.snap_tree(wt)
+    n = 0
+    for p in sorted(st):
+        if st[p][0] == "symlink" and any(ord(c) > 127 for c in p) and rng.random() < 0.9:
+            for cand in ("lnk%d" % k for k in range(1, 30)):
+                if cand not in st and not os.path.lexists(os.path.join(wt.basedir, cand)):
+                    wt.rename_one(p, cand)
+                    st[cand] = st.pop(p)
+                    n += 1
+                    log.append({"op": "ascii-link-name", "src": p, "dst": cand})
+                    break
+    return n
+
+
 def _build(ctx, rng):
     from breezy import errors
 
@@ -304,6 +322,7 @@ def _build(ctx, rng):
                 pass
         try:
             _sanitize_ignore_file(wt)
+            _mostly_ascii_symlink_paths(rng, wt, h.log)
         except Exception as e:
             h.log.append({"sanitize-refused": type(e).__name__})
             wt.revert()
@@ -495,6 +514,9 @@ def _exc_key(e, delta, snap_new, taint):
     unspecified = any(x and (_tainted(taint, x) or any(t.startswith(x + "/") for t in taint)) for x in involved)
     if subject is None:
         return "raised:%s@%s" % (exc, opname), unspecified
+    if opname == "upload_symlink" and exc == "InvalidURL" and any(ord(c) > 127 for o in ops[-1:] for x in o[1:] for c in x):
+        # every other remote operation goes through urlutils.escape(); upload_symlink hands raw paths to the transport
+        return "upload_symlink:path-not-url-escaped", False
     if opname == "upload_symlink" and "/" in subject and exc in ("InvalidURL", "NoSuchFile", "PathNotChild"):
         # the link-relative target is handed to Transport.symlink() as a transport-relative source
         # (upload_symlink_robustly normalises it, upload_symlink does not)
@@ -502,6 +524,8 @@ def _exc_key(e, delta, snap_new, taint):
     if opname == "upload_symlink" and exc == "FileExists":
         return "upload_symlink:remote-path-not-cleared-first", unspecified
     if delta is None:
+        if opname == "upload_symlink" and "/" in subject and exc in ("InvalidURL", "NoSuchFile", "PathNotChild"):
+            return "symlink-in-subdirectory:target-not-normalised", False
         return "raised:%s@%s:entry" % (exc, opname), unspecified
     fid = delta.old_at.get(subject) if side == "old" else delta.new_at.get(subject)
     fam = _family(delta, fid, subject, None)
@@ -649,6 +673,15 @@ def case(ctx):
         for p in set(new) | set(old) | set(before or ()):
             if pats and _ignored(pats, p):
                 taint.add(p)
+        if delta is not None and taint:
+            # don't-care paths travel with directories the upload renames on the remote side
+            npath = {v[3]: q for q, v in new.items()}
+            for q, v in old.items():
+                q2 = npath.get(v[3])
+                if v[0] == "directory" and q2 is not None and q2 != q:
+                    for t in list(taint):
+                        if t.startswith(q + "/"):
+                            taint.add(q2 + t[len(q):])
         # ---- documented refusal: going backwards without --overwrite
         if mode == "incr-back":
             try:
